@@ -1113,7 +1113,7 @@ pub fn run_c13(run: &mut Run) -> Stats {
     run.bounds = json!({"max_len": maxlen, "alphabet": 14, "strings": nstr, "prefixes": 4, "headers": 6, "entity_lens": lens.iter().map(|l| l.to_string()).collect::<Vec<_>>()});
     run.exhaustive = true;
     let ev = Eval { prop: &run.prop.clone(), extra_polls: 3 };
-    let ents: Vec<EntSpec> = lens
+    let mut ents: Vec<EntSpec> = lens
         .iter()
         .flat_map(|&l| {
             [
@@ -1122,6 +1122,20 @@ pub fn run_c13(run: &mut Run) -> Stats {
             ]
         })
         .collect();
+    // modification times at the edges of what an HTTP-date / SystemTime can express
+    let edge_mtimes = [
+        std::time::UNIX_EPOCH,
+        std::time::UNIX_EPOCH - std::time::Duration::from_nanos(1),
+        std::time::UNIX_EPOCH - std::time::Duration::from_secs(1),
+        std::time::UNIX_EPOCH - std::time::Duration::from_secs(2_208_988_800), // 1900
+        gen::t(253_402_300_799, 999_999_999),                                  // 9999-12-31 23:59:59
+        gen::t(253_402_300_800, 0),                                            // year 10000
+        gen::future(),
+    ];
+    let n_regular = ents.len();
+    for mt in edge_mtimes {
+        ents.push(ent(10, Some(b"\"v1\""), Some(mt), vec![], vec![]));
+    }
     let mut total = par_for(n_outer, threads(), |i, st| {
         let hi = (i % hdrs.len() as u64) as usize;
         let pi = ((i / hdrs.len() as u64) % prefixes.len() as u64) as usize;
@@ -1134,8 +1148,12 @@ pub fn run_c13(run: &mut Run) -> Stats {
         }
         let req = Req::new("GET").with(hdrs[hi], &v);
         for (k, e) in ents.iter().enumerate() {
-            // thin: long strings only against 3 of the 12 entities
+            // thin: long strings only against 3 of the 12 regular entities; the edge-mtime
+            // entities only with the shortest strings
             if v.len() > prefixes[pi].len() + 2 && !(k == 5 || k == 1 || k == 11) {
+                continue;
+            }
+            if k >= n_regular && v.len() > prefixes[pi].len() + 1 {
                 continue;
             }
             if ev.run(&req, e, st, (i << 8) | k as u64).is_some() {
